@@ -724,7 +724,18 @@ pub fn encode(s: &Sprite, plan: &Plan) -> Encoded {
         out.frame_ends.push(out.bytes.len());
     }
     let total = out.bytes.len() as u32;
-    let fs = if junk_on { cx.junk_rng.next() as u32 } else { total };
+    // the header's file-size field is ignored by readers; junk plans write anything there, including
+    // values smaller than the real size (stale after an append) and zero
+    let fs = if junk_on {
+        match cx.junk_rng.next() % 4 {
+            0 => 0,
+            1 => (cx.junk_rng.next() % (total as u64 + 1)) as u32,
+            2 => total.wrapping_add(1 + (cx.junk_rng.next() % 1000) as u32),
+            _ => cx.junk_rng.next() as u32,
+        }
+    } else {
+        total
+    };
     out.bytes[0..4].copy_from_slice(&fs.to_le_bytes());
     for _ in 0..plan.trailing {
         out.bytes.push(cx.rng.next() as u8);
